@@ -858,9 +858,13 @@ def e2_run(tier):
             if cls not in seen_cls:
                 seen_cls.add(cls)
                 pick.append(s)
-        for s in (pick + lst)[:perpair]:
-            cand.append({"id": "pair:%s|%s" % (a, b), "cls": [], "ops": [s["a"], s["b"]], "schedule": s["sched"], "gate": pairs[s["pair"] - 1]["locks"]})
+        # one witness per class of stuck state of this pair (at most 6), at least `perpair` schedules
+        for s in (pick[:6] + [x for x in lst if x not in pick])[:max(perpair, min(6, len(pick)))]:
+            cls = sorted([fns.get(s["s1"], s["s1"]), fns.get(s["s2"], s["s2"])])
+            cand.append({"id": "pair:%s|%s" % (a, b), "cls": cls, "ops": [s["a"], s["b"]], "schedule": s["sched"], "gate": pairs[s["pair"] - 1]["locks"]})
     res["stuck_pairs"] = sorted("%s||%s" % k for k in bypair)
+    # the classes of stuck states on the model, per pair of operations (deterministic: computed from the recorded lock programs)
+    res["model_classes"] = {"%s||%s" % tuple(sorted(k)): sorted(set("|".join(sorted([fns.get(s["s1"], s["s1"]), fns.get(s["s2"], s["s2"])])) for s in lst)) for k, lst in bypair.items()}
     # plus seeded random schedules over conflicting pairs (no model behind them: real threads, real locks)
     nrand = 40 if tier == "quick" else 600
     for i in range(nrand):
@@ -868,6 +872,7 @@ def e2_run(tier):
         n = len(p["p"][0]) + len(p["p"][1])
         sc = [rnd.choice([1, 2]) for _ in range(n)]
         cand.append({"id": "rand:%d" % i, "cls": [], "ops": [p["a"], p["b"]], "schedule": sc, "gate": p["locks"]})
+    candcls = {c["id"] + "|" + json.dumps(c["schedule"]): c["cls"] for c in cand}
     cin = os.path.join(run, "c15_in.ndjson")
     with open(cin, "w") as f:
         for c in cand:
@@ -901,7 +906,7 @@ def e2_run(tier):
             if c["deadlock"]:
                 sites = sorted(x.get("blocked_at", x.get("at", "")) for x in c["blocked"])
                 cls = sorted(fns.get(s, s) for s in sites)
-                dead.append({"id": d["id"], "ops": c["ops"], "schedule": c["schedule"], "sites": sites, "cls": cls})
+                dead.append({"id": d["id"], "ops": c["ops"], "schedule": c["schedule"], "sites": sites, "cls": cls, "model_cls": candcls.get(d["id"] + "|" + json.dumps(c["schedule"]), [])})
     res["c15"] = {"classes": len(classes), "confirm_runs": nruns, "deadlocks": dead}
     # ---- C16: one-preemption schedules of every conflicting pair, judged by TLC against the sequential oracle
     stride = 4 if tier == "quick" else 1
@@ -981,12 +986,15 @@ def check_c15(tier):
         cls = tuple(sorted(d["ops"]))
         dump.setdefault("||".join(cls), {"ops": list(cls), "sites": d["sites"], "functions": d["cls"]})
         hit = [f for f in kf if tuple(sorted(f.get("ops", []))) == cls]
-        if hit:
+        # the witness schedule came from a stuck state of the model: the listed finding explains it only if it lists that class of
+        # stuck state (pair of functions holding / wanting the locks, computed on the model: independent of timing and machine load)
+        mc = "|".join(d.get("model_cls") or [])
+        if hit and (not mc or not hit[0].get("model_classes") or mc in hit[0]["model_classes"]):
             known[hit[0]["id"]] = hit[0]
             continue
-        if cls in seen:
+        if (cls, mc) in seen:
             continue
-        seen.add(cls)
+        seen.add((cls, mc))
         viol += 1
         dd = os.path.join(WORK, "replays")
         os.makedirs(dd, exist_ok=True)
@@ -995,6 +1003,8 @@ def check_c15(tier):
         print("VIOLATION property=C15 replay=%s" % path)
         log("   %s || %s: both threads blocked forever at %s (functions %s)" % (d["ops"][0], d["ops"][1], d["sites"], d["cls"]))
     if os.environ.get("VERIF_E2_DUMP"):
+        for k2, v2 in dump.items():
+            v2["model_classes"] = res.get("model_classes", {}).get(k2, [])
         json.dump(dump, open(os.environ["VERIF_E2_DUMP"], "w"), indent=1)
     for fid, f in sorted(known.items()):
         print("KNOWN-FINDING: property=C15 %s" % f["what"])
